@@ -60,7 +60,7 @@ def evaluate(seed_dir: Path, checks: list[str], skip_suite: bool = False, tier: 
             rc, out = sh([PY, "-m", "pytest", "-q", "-p", "no:cacheprovider", "--timeout=900", "-x"], wt, None, 1800)
             res["suite"] = {"exit": rc, "summary": [l for l in out.splitlines() if " passed" in l or " failed" in l or "error" in l.lower()][-2:]}
             sh(["git", "checkout", "--", "tests"], wt)
-        with ThreadPoolExecutor(max_workers=4) as ex:
+        with ThreadPoolExecutor(max_workers=int(os.environ.get("SEED_CHECK_PAR", "4"))) as ex:
             results = list(ex.map(lambda p: (p, run_check(p, wt, tier)), checks))
         res["checks"] = {p: r for p, r in results}
         res["fired"] = [p for p, r in results if r["exit"] == 1]
